@@ -568,4 +568,6 @@ def run(src, out):
     extragen2.run(src, out, hdr)
     import extragen3
     extragen3.run(src, out, hdr)
+    import extragen4
+    extragen4.run(src, out, hdr)
     return hdr
